@@ -291,17 +291,28 @@ def bulkOne (s : TState D) (id : Nat) : TState D × Option (Vec × Meta × Tier)
     | .missing => (s, none)
   | none => (s, none)
 
-/-- `bulk_query_with_source`: hot pass over all ids (with scrubbing), then cold for the misses. -/
+/-- first pass of `bulk_query_with_source`: hot-tier hits with canonical check (and scrubbing) -/
+def bulkPass (s : TState D) : List Nat → TState D × List (Option (Vec × Meta × Tier))
+  | [] => (s, [])
+  | id :: rest =>
+    match bulkOne digest s id with
+    | (s1, r) =>
+      match bulkPass s1 rest with
+      | (s2, rs) => (s2, r :: rs)
+
+/-- second pass: the misses are fetched from the canonical store -/
+def bulkFill (cold : Cold) : List Nat → List (Option (Vec × Meta × Tier)) →
+    List (Option (Vec × Meta × Tier))
+  | id :: ids, r :: rs =>
+    (match r with
+     | some x => some x
+     | none => (alookup id cold).map fun d => (d.vec, d.md, Tier.cold)) :: bulkFill cold ids rs
+  | _, _ => []
+
+/-- `bulk_query_with_source` -/
 def bulkQuery (s : TState D) (ids : List Nat) : TState D × List (Option (Vec × Meta × Tier)) :=
-  let (s1, firstPass) := ids.foldl
-    (fun (acc : TState D × List (Option (Vec × Meta × Tier))) id =>
-      let (st, r) := bulkOne digest acc.1 id
-      (st, acc.2 ++ [r])) (s, [])
-  let res := (ids.zip firstPass).map fun (id, r) =>
-    match r with
-    | some x => some x
-    | none => (alookup id s1.cold).map fun d => (d.vec, d.md, Tier.cold)
-  (s1, res)
+  match bulkPass digest s ids with
+  | (s1, fp) => (s1, bulkFill s1.cold ids fp)
 
 /-! ### Writes -/
 
